@@ -139,6 +139,35 @@ def parseInner (req : Json) : Except String (List Item → Except Err (List Item
 
 def dummyItem : Item := { id := 0, logged := false, hasCtx := false, ctx := .none, nact := 0, record := [] }
 
+partial def parsePV (j : Json) : Except String PV := do
+  match j with
+  | .arr xs => pure (.seq (← xs.toList.mapM parsePV))
+  | _ => pure (.atom (← nat j))
+
+def parseCell (j : Json) : Except String Cell := do
+  match j.getObjVal? "col" with
+  | .ok v => pure (.col (← (← arr v).mapM parsePV))
+  | .error _ => pure (.val (← parsePV (← field j "val")))
+
+partial def pvJson : PV → Json
+  | .atom t => ofNat t
+  | .seq vs => Json.arr (vs.map pvJson).toArray
+
+def cellJson : Cell → Json
+  | .val v => obj [("val", pvJson v)]
+  | .col vs => obj [("col", ofList pvJson vs)]
+
+def crecJson (r : CRec) : Json := ofList (fun (kv : String × Cell) => Json.arr #[Json.str kv.1, cellJson kv.2]) r
+
+/-- cut the records into consecutive batches of the given sizes (0 = an empty batch) -/
+def cutBatches (keys : List String) : List Nat → List (Rec Nat) → Except Err (List (Batched Nat))
+  | [], _ => .ok []
+  | sz :: szs, recs =>
+    match (if sz = 0 then .ok (emptyBatch keys) else (batchCols keys (recs.take sz)).map Batched.batch), cutBatches keys szs (recs.drop sz) with
+    | .ok b, .ok bs => .ok (b :: bs)
+    | .error e, _ => .error e
+    | _, .error e => .error e
+
 def handle (req : Json) : Except String Json := do
   let op ← str (← field req "op")
   let items ← (← arr (← field req "items")).mapM parseItem
@@ -215,6 +244,53 @@ def handle (req : Json) : Except String Json := do
       match batchSafe (liftF F) xs with
       | .error e => pure (obj [("err", Json.str (errName e))])
       | .ok bs => pure (obj [("batches", ofList batchedJson bs), ("unbatched", ofList recJson (unbatchF bs))])
+  | "batchsafe2" =>
+    -- BatchSafe(inner) on hand-made batches of the given sizes; the inner filter treats what it gets as opaque items
+    let sizes ← natList (← field req "sizes")
+    let keys ← strList (← field req "keys")
+    let inner ← parseInner (← field req "inner")
+    let itemOf := fun (r : Rec Nat) => match r with
+      | [] => dummyItem
+      | (_, t) :: _ => (items.find? (fun (i : Item) => i.id == t / 64)).getD dummyItem
+    let G : List (Batched Nat) → Except Err (List (Batched Nat)) := fun ys =>
+      let pseudo := ys.zipIdx.map (fun (p : Batched Nat × Nat) => match p.1 with
+        | .plain r => { itemOf r with id := p.2 }
+        | .batch cols => { dummyItem with id := p.2, logged := cols.any (·.1 == "action") && cols.any (·.1 == "reward") })
+      match inner pseudo with
+      | .error e => .error e
+      | .ok l => .ok (l.filterMap (fun (i : Item) => ys[i.id]?))
+    match cutBatches keys sizes (items.map (·.record)) with
+    | .error e => pure (obj [("err", Json.str (errName e))])
+    | .ok xs =>
+      match batchSafe G xs with
+      | .error e => pure (obj [("err", Json.str (errName e))])
+      | .ok bs => pure (obj [("batches", ofList batchedJson bs), ("unbatched", ofList recJson (unbatchF bs))])
+  | "unbatchg" =>
+    let recs ← (← arr (← field req "recs")).mapM (fun r => do (← arr r).mapM (fun p => do
+      match p with
+      | .arr #[k, c] => pure (← str k, ← parseCell c)
+      | _ => throw "key/cell pair expected"))
+    match unbatchG recs with
+    | .error e => pure (obj [("err", Json.str (errName e))])
+    | .ok out => pure (obj [("out", ofList crecJson out)])
+  | "product" =>
+    -- Environments(env_0 …).filter([f_0 …]) / .shuffle(seeds=[…]): members = environments × filters
+    let envs ← (← arr (← field req "envs")).mapM (fun e => do (← arr e).mapM parseItem)
+    let inners ← (← arr (← field req "inners")).mapM parseInner
+    let order ← (← arr (← field req "order")).mapM (fun p => do
+      match p with
+      | .arr #[k, c] => pure (← nat k, ← opt nat c)
+      | _ => throw "read [member, consumed] expected")
+    let sorted ← bool (fieldD req "sorted" (Json.bool false))
+    let seedKeys ← natList (fieldD req "seedkeys" (Json.arr #[]))
+    let members := if sorted then sortedMembers (fun j => seedKeys.getD j 0) envs.length inners.length
+                   else productMembers envs.length inners.length
+    let envOf := fun k => envs.getD k []
+    let filtOf := fun j => inners.getD j (fun _ => .ok [])
+    let outs := runColl (statelessFilt (fun (p : List Item × (List Item → Except Err (List Item))) => p.2 p.1))
+      (memberEnv envOf filtOf members (0, 0)) (fun _ => ()) order
+    pure (obj [("members", ofList (fun (m : Nat × Nat) => Json.arr #[ofNat m.1, ofNat m.2]) members),
+               ("reads", ofList (fun (p : Nat × Except Err (List Item)) => Json.arr #[ofNat p.1, outIds p.2]) outs)])
   | "collection" =>
     -- Environments(env_0, env_1, …).<shortcut>() read in a given order; a fresh filter object per environment
     let envs ← (← arr (← field req "envs")).mapM (fun e => do (← arr e).mapM parseItem)
